@@ -41,6 +41,12 @@ type Input struct {
 	// merklization root must equal the one of Doc
 	Variants []string `json:"variants,omitempty"`
 	Kinds    []string `json:"expected_proof_kinds,omitempty"`
+	// reuse streams (kind reuse-auth | reuse-did | dup-did | reuse-cred): the document
+	// decoded into the same variable BEFORE Doc
+	Prev string `json:"prev,omitempty"`
+	// purity stream: also assert that Merklize / ToCoreClaim / VerifyProof leave the
+	// credential value unchanged (loaders failing at the k-th fetch, resolver errors)
+	Purity bool `json:"purity,omitempty"`
 }
 
 type obs struct {
@@ -644,6 +650,22 @@ func featKey(feat map[string]bool) string {
 	return strings.Join(ks, "+")
 }
 
+func (d *drv) dispatch(in *Input, rep *common.Report) *caseRec {
+	switch in.Kind {
+	case "did":
+		return d.didCase(in, rep)
+	case "reuse-auth", "reuse-did", "dup-did", "reuse-cred":
+		d.reuseCase(in, rep)
+		return nil
+	default:
+		rec := d.credCase(in, rep)
+		if in.Purity && rec != nil && rec.o.decodeErr == "" {
+			d.purityCase(in, rep)
+		}
+		return rec
+	}
+}
+
 // job is one generated document with the evidence bookkeeping to do once it has run.
 type job struct {
 	in      *Input
@@ -669,11 +691,7 @@ func (d *drv) runJobs(jobs []*job) {
 			defer wg.Done()
 			for j := range ch {
 				j.rep = common.NewReport("C14")
-				if j.in.Kind == "did" {
-					j.rec = d.didCase(j.in, j.rep)
-				} else {
-					j.rec = d.credCase(j.in, j.rep)
-				}
+				j.rec = d.dispatch(j.in, j.rep)
 			}
 		}()
 	}
@@ -740,11 +758,11 @@ func Run(cfg *common.Config) (*common.Report, error) {
 			return nil, err
 		}
 		in := rf.Input
-		var c *caseRec
-		if in.Kind == "did" {
-			c = d.didCase(&in, rep)
-		} else {
-			c = d.credCase(&in, rep)
+		c := d.dispatch(&in, rep)
+		for _, f := range rep.Failures {
+			if c == nil {
+				fmt.Printf("replay: [%s] %s\n", f.Class, f.What)
+			}
 		}
 		if c != nil {
 			d.cases = append(d.cases, c)
